@@ -15,7 +15,7 @@ ASSUMPTIONS = [
 ]
 BOUNDS = {
     "quick": "8 contents sets (2-3 keys, prefix-related, hashed/embedded/mixed); prune x cache in all 4 combinations; schedules of <= 3 events with <= 1 mutation event, 2 query keys per fog query",
-    "thorough": "all contents sets with >= 2 keys of the 64-trie family; schedules of <= 4 events with <= 2 mutations, 4 query keys",
+    "thorough": "12 contents sets; schedules of <= 4 events with <= 1 mutation and of <= 3 events with <= 2 mutations; 2 query keys per fog query; all navigation configurations",
 }
 OUTSIDE = "longer schedules, walks interleaved with squash_changes batches, missing nodes during the walk (C07), keys outside the pools"
 NONTRIVIAL_RULE = "schedule starts with a walk step and contains a mutation"
@@ -26,19 +26,20 @@ def jobs(tier):
     qbase = {"tier": "quick", "kpool": "K7", "seed": seed, "maxlen": 3, "lift": False}
     fam = hexquery.family_for(qbase)
     idx = [i for i, m in enumerate(fam) if len(m) >= 2]
-    if tier == "quick":
-        idx = idx[::max(1, len(idx) // 8)][:8]
+    idx = idx[::max(1, len(idx) // (8 if tier == "quick" else 12))][:8 if tier == "quick" else 12]
     out = []
     for mi in idx:
         for prune in (False, True):
             for cache in (False, True):
-                cfg = dict(qbase, mi=mi, prune=prune, cache=cache, maxev=3 if tier == "quick" else 4, maxmut=1 if tier == "quick" else 2)
+                cfg = dict(qbase, mi=mi, prune=prune, cache=cache, maxev=3 if tier == "quick" else 4, maxmut=1)
                 cfg["tier"] = tier if tier == "quick" else "quick"      # family is the quick one in both tiers
-                cfg["wtier"] = tier
+                cfg["wtier"] = "quick"
                 if not cache and (tier != "quick" or mi % 2):
                     out.append({"module": "vf.props.hexwalk", "fn": "h_walk", "cfg": dict(cfg, nav="root_node"), "pct": 3000, "ppt": 60})
                     if tier == "quick":
                         continue
+                if tier != "quick":      # second shape of schedule: shorter, but two mutation events
+                    out.append({"module": "vf.props.hexwalk", "fn": "h_walk", "cfg": dict(cfg, maxev=3, maxmut=2), "pct": 3000, "ppt": 60})
                 out.append({"module": "vf.props.hexwalk", "fn": "h_walk", "cfg": cfg, "pct": 3000, "ppt": 60})
     out.append({"module": "vf.props.hexwalk", "fn": "r_walk", "cfg": dict(qbase, mi=idx[-1], prune=True, cache=True, maxev=3, maxmut=1), "pct": 900, "ppt": 60, "kind": "reach"})
     return out
